@@ -71,7 +71,7 @@ def registry : List (Nat × String) := [
   (43819281039222171, "shared/docstring_utils.py:<module> — TOKENS_SET: `in` and `any(filter(startswith, …))` (order-insensitive)"),
   (196384230917939543, "shared/emit/file.py:file — `target_versions=set()` option value passed to black"),
   (174412712244795379, "shared/parse/utils/parser_utils.py:merge_params — merge_params `&` loop: iterations commute — theorem C10.merge_deterministic"),
-  (531708822156616714, "shared/parse/utils/parser_utils.py:_join_non_none — _join_non_none: builds a dict from a set, then `primacy.update`; only the key order *inside one ParamVal* can vary and no emitter iterates a ParamVal (checked by the hash-seed differential with inner key order ignored)"),
+  (531708822156616714, "shared/parse/utils/parser_utils.py:_join_non_none — _join_non_none: builds a dict from a set, then `primacy.update`; modelled in Model/JoinNonNone.lean: as a mapping the result is independent of the set order (C10Join.join_map_indep), only the key order *inside one ParamVal* can vary, exactly when two or more fresh keys exist (C10Join.join_order_differs_iff), and no emitter iterates a ParamVal (checked by the hash-seed differential with inner key order ignored)"),
   (813057370245711194, "shared/pure_utils.py:all_dunder_for_module — package-name set: membership"),
   (195094877199674373, "shared/pure_utils.py:ensure_valid_identifier — identifier character class: membership"),
   (406841448383492112, "shared/pure_utils.py:<module> — inner frozenset feeding the DUNDERS frozenset (set → set)"),
